@@ -405,7 +405,8 @@ MANIFEST = {
             "children / children(recursive) / process_iter are guarded with other processes vanishing, wait(0), NoSuchProcess "
             "once gone for every OS-consulting query, the memoising accessors' exemption as a theorem about the script "
             "table, and refuted theorems about the code before the three repairs. Tie to the code: every access index x "
-            "fault x base kind is run on the real psutil and outcome + complete access sequence are compared.",
+            "fault x base kind -- and two-call histories on one object -- is run on the real psutil and outcome + complete access "
+            "sequence are compared.",
     "note": "Trusted: Coq kernel + vm_compute; the fault model (Spec.v base_ok / Model.v answer); hand-written scripts "
             "(tied by exhaustive fault enumeration of access sequences); harness shim. No call is oracle-only (as_dict() "
             "falls back to oracle-only if its attribute order cannot be determined).",
